@@ -2,7 +2,7 @@
    Only statements; proofs are [exact <lemma>] from Addr/QuoteProofs.v, Addr/TokProofs.v.
    Models: Addr/Quote.v (quote.c, qmail-remote.c addrmangle), Smtp/Smtpd.v addrparse (qmail-smtpd.c),
    Addr/Tok.v (token822.c), Addr/Inject822.v (qmail-inject.c rw*, doheaderfield; hfield.c; headerbody.c). *)
-From NQ Require Import Addr.Quote Addr.Tok Addr.Inject822 Smtp.Smtpd Addr.QuoteProofs Addr.TokProofs Addr.GrammarProofs.
+From NQ Require Import Addr.Quote Addr.Tok Addr.Inject822 Smtp.Smtpd Addr.QuoteProofs Addr.TokProofs Addr.GrammarProofs Addr.GroupProofs.
 Local Open Scope N_scope.
 
 (* SMTP: for EVERY local part l (any bytes), every domain of ordinary domain characters and every server
@@ -47,6 +47,20 @@ Theorem addrlist_grammar_missing_commas_partial : forall cb n c first rest,
               = (Some out, map (fun it => cb (item_addr it)) (rev (first :: map snd rest))).
 Proof. exact addrlist_grammar_nocomma_l. Qed.
 Print Assumptions addrlist_grammar_missing_commas_partial.
+
+(* the full address-list grammar with GROUPS  (name: mailbox, ...;  possibly empty), entries separated by commas: the
+   callback sees exactly all mailboxes, members of groups included, right to left; the field is rebuilt with the
+   group syntax kept and each address replaced by the callback's result *)
+Theorem addrlist_grammar_with_groups : forall cb n c es, Forall entry_ok es ->
+  addrlist cb (n :: c :: render_entries es)
+  = (Some (n :: c :: render_entries_new cb es), map cb (rev (flat_map entry_addrs es))).
+Proof. exact groups_out_l. Qed.
+Print Assumptions addrlist_grammar_with_groups.
+(* unbalanced group syntax is a parse error (the field is then left as it was) *)
+Theorem group_colon_without_semicolon_is_an_error : forall cb n c l its, Forall item_ok its ->
+  fst (addrlist cb (n :: c :: l ++ TColon :: render its)) = None.
+Proof. exact colon_without_semi. Qed.
+Print Assumptions group_colon_without_semicolon_is_an_error.
 
 (* rewriting: a fully qualified address is left alone; a lone box name gets the default host, then the
    plus-domain and default-domain rules in that order *)
